@@ -157,7 +157,7 @@ func startWorker(bin string, cfgText string, race bool) (*worker, error) {
 		return nil, infra("config dir: %v", err)
 	}
 	cmd := exec.Command(bin, "-test.run", "^TestWorker$", "-test.timeout", "0", "-test.count", "1")
-	cmd.Env = append(os.Environ(), "XDG_CONFIG_HOME="+dir, "HOME="+dir, "GOTRACEBACK=all")
+	cmd.Env = append(os.Environ(), "XDG_CONFIG_HOME="+dir, "HOME="+dir, "GOTRACEBACK=all", "VERIF_FD_CAPTURE="+filepath.Join(dir, "fd.out"))
 	if race {
 		cmd.Env = append(cmd.Env, "GORACE=halt_on_error=1 exitcode=66")
 	}
@@ -190,6 +190,19 @@ type startupError struct {
 
 func (e *startupError) Error() string {
 	return fmt.Sprintf("worker did not start (exit %d): %s %s", e.exit, strings.TrimSpace(e.stderr), e.line)
+}
+
+// errText is what the worker wrote to its standard error: before it took up work, to the pipe;
+// afterwards (descriptors 1 and 2 then stand for servitor's terminal) to the capture file.
+func (w *worker) errText() string {
+	text := w.stderr.String()
+	if b, err := os.ReadFile(filepath.Join(w.cfgDir, "fd.out")); err == nil && len(b) > 0 {
+		if len(b) > 1<<17 {
+			b = append(append([]byte(nil), b[:6000]...), append([]byte("\n[...]\n"), b[len(b)-(1<<16):]...)...)
+		}
+		text += string(b)
+	}
+	return text
 }
 
 func (w *worker) exitCode() int {
@@ -285,7 +298,7 @@ func (w *worker) run(job *Job, limit time.Duration) (*Result, error) {
 	b = append(b, '\n')
 	if _, err := w.stdin.Write(b); err != nil {
 		w.cmd.Wait()
-		return nil, &jobDeath{stderr: w.stderr.String(), exit: w.exitCode()}
+		return nil, &jobDeath{stderr: w.errText(), exit: w.exitCode()}
 	}
 	stopWatch := make(chan struct{})
 	memKilled := make(chan struct{}, 1)
@@ -295,15 +308,15 @@ func (w *worker) run(job *Job, limit time.Duration) (*Result, error) {
 	select {
 	case <-memKilled:
 		w.cmd.Wait()
-		return nil, &jobDeath{memory: true, stderr: w.stderr.String()}
+		return nil, &jobDeath{memory: true, stderr: w.errText()}
 	default:
 	}
 	if err == errTimeout {
-		return nil, &jobDeath{timeout: true, stderr: w.stderr.String()}
+		return nil, &jobDeath{timeout: true, stderr: w.errText()}
 	}
 	if err != nil && !strings.HasPrefix(line, "@@RES ") {
 		w.cmd.Wait()
-		return nil, &jobDeath{stderr: w.stderr.String(), exit: w.exitCode()}
+		return nil, &jobDeath{stderr: w.errText(), exit: w.exitCode()}
 	}
 	if strings.HasPrefix(line, "@@ERR") {
 		return nil, infra("worker: %s", line)
